@@ -803,7 +803,12 @@ impl Disk {
         // TODO: eliminate redundancy, by this time the directory has already been read at least once
         let dir = self.get_directory(&parent.cluster1)?;
         let entry = dir.get_entry(&Ptr::Entry(finfo.idx));
-        let all_data = self.get_cluster_chain_data(&finfo.cluster1.unwrap())?;
+        // a name with wildcards stands for no file of its own, even when a corrupted entry carries it
+        let cluster1 = match &finfo.cluster1 {
+            Some(ptr) => ptr,
+            None => return Err(Box::new(Error::FileNotFound))
+        };
+        let all_data = self.get_cluster_chain_data(cluster1)?;
         fimg.desequence(&all_data);
         entry.metadata_to_fimg(&mut fimg); // must come after desequence or eof is spoiled
         Ok(fimg)
